@@ -16,7 +16,7 @@ PROP = {
     ],
 }
 TEXT = {
-    "text": "Theorems C11_interleaving_eq_sequential_partial / C11_finished_goroutine_partial / C11_shared_state_ok_partial: goroutines are lists of calls, each call the entry-point program of Model/Pool.v (atomic pool, buffer and cache actions separated by local computation on owned objects); for every schedule, any number of goroutines and any pool answers, each finished call returned its fresh result and the shared state is legal (induction over the schedule; the per-thread invariant is a simulation with a program whose fresh value is the fresh result). The unmodelled half is sampled: G in {2,8,32} goroutines on shared and distinct Regexps against precomputed sequential results, the same under -race with GOMAXPROCS in {1,2,16} and injected yields, and a syntactic write-set scan against an allow-list.",
+    "text": "Theorems C11_interleaving_eq_sequential_partial / C11_finished_goroutine_partial / C11_shared_state_ok_partial / C11_ownership_partial: goroutines are lists of calls, each call the entry-point program of Model/Pool.v (atomic pool, buffer and cache actions separated by local computation on owned objects); for every schedule, any number of goroutines and any pool answers, each finished call returned its fresh result and the shared state is legal (induction over the schedule; the per-thread invariant is a simulation with a program whose fresh value is the fresh result); no goroutine ever Puts an object it does not hold and every runner/buffer identity is in a pool xor held by exactly one goroutine (every entry point is linear in the objects it Gets, on all paths). The unmodelled half is sampled: G in {2,8,32} goroutines on shared and distinct Regexps against precomputed sequential results, the same under -race with GOMAXPROCS in {1,2,16} and injected yields, and a syntactic write-set scan against an allow-list.",
     "design_ref": "DESIGN.md §4 C11",
     "note": "Claimed PARTIAL: Coq kernel, no axioms, for the interleaving logic; race freedom under the Go memory model is evidence from the race detector runs, not a theorem.",
     "technique": "Coq proof (interleaving semantics over resumption programs) + race-detector stress runs + go/parser write-set scan",
